@@ -27,7 +27,6 @@ ASSUMPTIONS = [
     "booleans are outside the statement (Python treats them as integers)",
     "non-string IP address values (int/bytes, accepted by the ipaddress module) and incomplete "
     "dictionaries are outside the statement",
-    "a falsy TRANSPORT_TYPE given to Diameter(config=...) becoming 'TCP' is the documented default",
 ]
 
 KEYS = ["MODE", "TRANSPORT_TYPE", "APPLICATIONS", "LOCAL_NODE_HOSTNAME", "LOCAL_NODE_REALM",
@@ -54,7 +53,7 @@ VALID = {
 
 INVALID = {
     "MODE": ["client", "PROXY", None, 1, "", "CLIENT ", "Server"],
-    "TRANSPORT_TYPE": ["UDP", "tcp", "sctp", "TCP ", 7],
+    "TRANSPORT_TYPE": ["UDP", "tcp", "sctp", "TCP ", 7, "", None, 0],
     "APPLICATIONS": [[{"vendor_id": "10415", "app_id": "16777251"}], [{"vendor_id": 10415, "app_id": 16777251}],
                      [{"foo": b"\x00\x00\x00\x01"}], [{"vendor_id": b"\x00\x00\x28\xaf", "app_id": None}],
                      "S6a", 16777251, [b"\x01\x00\x00\x23"], {"vendor_id": b"\x00\x00\x28\xaf"},
@@ -202,8 +201,6 @@ def part_dicts(rep, arg):
         if idx % nk != k:
             continue
         for entry in ("convert", "diameter"):
-            if entry == "diameter" and "TRANSPORT_TYPE" in bad and not cfg.get("TRANSPORT_TYPE"):
-                continue   # documented default
             judge(rep, copy.deepcopy(cfg) if False else {kk: copy.deepcopy(v) for kk, v in cfg.items()}, bad, entry, label)
             n += 1
     rep.add(evaluations=n, distinct=max(0, n - 2), dict_cases=n)
